@@ -55,3 +55,41 @@ Example c16_vectors :
   m_hash_chunks 0 [[1;2;3]; []; [4;5;6;7;8;9;10;11;12;13;14;15;16;17]; [18]] =
     murmur3_x64_128 0 [1;2;3;4;5;6;7;8;9;10;11;12;13;14;15;16;17;18].
 Proof. vm_compute. repeat split; reflexivity. Qed.
+
+(* xxHash's published sanity-check vectors (buffer bytes = high byte of PRIME32 * PRIME64^i; lengths 1, 32, 33, 100:
+   one tail byte, exactly one stripe, stripe + tail, three stripes + 4-byte tail), seeds 0 and PRIME32 *)
+Definition XXH_SANITY : list N := [0; 82; 146; 155; 183; 50; 163; 36; 45; 0; 175; 149; 14; 236; 184; 147; 227; 223; 239; 147; 170; 214; 205; 42; 83; 139; 92; 63; 84; 90; 111; 213; 89; 192; 255; 252; 143; 133; 185; 51; 29; 171; 116; 247; 182; 5; 147; 39; 176; 112; 132; 179; 103; 124; 159; 118; 72; 0; 114; 237; 123; 152; 23; 232; 221; 72; 94; 12; 12; 203; 208; 101; 63; 173; 178; 143; 17; 176; 108; 232; 141; 176; 241; 134; 8; 97; 89; 86; 108; 142; 78; 120; 19; 99; 189; 171; 157; 50; 115; 9; 234].
+Example c16_xxh64_sanity_vectors :
+  xxh64 0 (firstn 1 XXH_SANITY) = 0xE934A84ADB052768 /\
+  xxh64 0 (firstn 32 XXH_SANITY) = 0x18B216492BB44B70 /\
+  xxh64 0 (firstn 33 XXH_SANITY) = 0x55C8DC3E578F5B59 /\
+  xxh64 0 (firstn 100 XXH_SANITY) = 0x4BFE019CD91D9EA4 /\
+  xxh64 0x9E3779B1 (firstn 1 XXH_SANITY) = 0x5014607643A9B4C3 /\
+  xxh64 0x9E3779B1 (firstn 32 XXH_SANITY) = 0xB3F33BDF93ADE409 /\
+  xxh64 0x9E3779B1 (firstn 100 XXH_SANITY) = 0x4853706DC9625CAE.
+Proof. vm_compute. repeat split; reflexivity. Qed.
+
+(* ---- consequently: the quantity a sketch derives for an item is a function of the item's hashed byte sequence only --
+   however std's Hash impl splits the item into write calls, the derived HLL coupon, theta hash, CPC (row, col), Count-Min
+   bucket and Bloom digests equal the reference derivation applied to the one-shot digest of the concatenated bytes ---- *)
+Theorem c16_hll_coupon_of_bytes :
+  forall chunks, hll_coupon chunks = hll_coupon_of (murmur3_x64_128 9001 (concat chunks)).
+Proof. intros. unfold hll_coupon. now rewrite murmur_chunking. Qed.
+
+Theorem c16_theta_hash_of_bytes :
+  forall seed chunks, theta_hash seed chunks = theta_hash_of (murmur3_x64_128 seed (concat chunks)).
+Proof. intros. unfold theta_hash. now rewrite murmur_chunking. Qed.
+
+Theorem c16_cpc_row_col_of_bytes :
+  forall lg_k seed chunks, cpc_row_col lg_k seed chunks = cpc_row_col_of lg_k (murmur3_x64_128 seed (concat chunks)).
+Proof. intros. unfold cpc_row_col. now rewrite murmur_chunking. Qed.
+
+Theorem c16_cm_bucket_of_bytes :
+  forall seed row nb chunks,
+  cm_bucket seed row nb chunks = fst (murmur3_x64_128 (cm_row_seed seed row) (concat chunks)) mod nb.
+Proof. intros. unfold cm_bucket. now rewrite murmur_chunking. Qed.
+
+Theorem c16_bloom_digests_of_bytes :
+  forall seed chunks,
+  bloom_h0h1 seed chunks = (xxh64 seed (concat chunks), xxh64 (xxh64 seed (concat chunks)) (concat chunks)).
+Proof. intros. unfold bloom_h0h1. now rewrite !xxh64_chunking. Qed.
